@@ -496,7 +496,11 @@ func oracleC09Concurrent(r *rng, n int, st *oracleStats) []oracleFailure {
 		}(i)
 	}
 	wg.Wait()
+	st.Samples = []string{}
 	for i, o := range out {
+		if len(st.Samples) < 2 {
+			st.Samples = append(st.Samples, fmt.Sprintf("concurrent run kind=%s seed=%d", o.kind, seeds[i]))
+		}
 		st.Evaluations++
 		st.Nontrivial++
 		st.Dist["run:"+o.kind]++
